@@ -125,6 +125,8 @@ var c08Noise = map[string]string{
 	"${{ «needs».«caller».«outputs».«cout» }}": "${{ «needs».«caller».«outputs».«cout» }} ${{ «needs».«caller».«outputs».nosuchout }} ${{ «steps».nosuchstep }}",
 	"          «ref»: main\n":                  "          «ref»: main\n          nosuchinput: 1\n",
 	"      «cin»: ${{":                         "      nosuchcin: 1\n      «cin»: ${{",
+	// the script input of actions/github-script is recognised whatever the case of its name
+	"      - id: «s2»\n        uses: actions/checkout@v4\n": "      - uses: actions/github-script@v7\n        with:\n          «script»: console.log(${{ «github».«event».«pull_request».«title» }})\n          «github-token»: t\n      - id: «s2»\n        uses: actions/checkout@v4\n",
 	// untrusted inputs spelled with string indexes: reported in every letter case
 	"      - run: echo ${{ «contains»(«github».«event».«pull_request».«title», 'x') }}": "      - run: echo ${{ «github».«event».«pull_request»['«title»'] }} ${{ «github»['«head_ref»'] }} ${{ «github»['«event»']['«comment»']['«body»'] }}\n      - run: echo ${{ «contains»(«github».«event».«pull_request».«title», 'x') }}",
 }
